@@ -414,9 +414,14 @@ impl ZipOffsetBlobStore {
         let mut store = Self::with_config(config)?;
 
         // Read content data with SIMD optimization for large content
-        store.content.reserve(header.content_bytes as usize)?;
-        let mut content_bytes = vec![0u8; header.content_bytes as usize];
-        reader.read_exact(&mut content_bytes)?;
+        // `content_bytes` is an unvalidated header field: read through `take` so that memory
+        // follows the bytes actually present instead of reserving the declared size up front
+        let mut content_bytes = Vec::new();
+        reader.by_ref().take(header.content_bytes).read_to_end(&mut content_bytes)?;
+        if content_bytes.len() as u64 != header.content_bytes {
+            return Err(ZiporaError::io_error("unexpected end of file in content data"));
+        }
+        store.content.reserve(content_bytes.len())?;
         
         // Use SIMD-optimized extend for large content
         if store.should_use_simd(content_bytes.len()) {
